@@ -40,6 +40,18 @@ class SymSeq(Model):
         s.__dict__.update({k: v for k, v in self.__dict__.items() if k not in ('prefix', 'n', 'elem', 'kind')})
         return s
 
+    def shifted(self, k):
+        """the sequence without its first k (symbolic-part) elements; carried attributes (fold invariant …) are
+        expressed in the indices of the shifted sequence"""
+        el = self.elem
+        s = SymSeq([], z3.simplify(self.n - k), lambda i, el=el, k=k: el(i + k), self.kind)
+        s.__dict__.update({a: v for a, v in self.__dict__.items() if a not in ('prefix', 'n', 'elem', 'kind')})
+        return s
+
+    def concrete_len(self, it=None):
+        n = z3.simplify(self.n)
+        return len(self.prefix) + n.as_long() if z3.is_int_value(n) else None
+
     def rest_with_prefix(self, items):
         """used for *args binding: `items` are extra concrete positionals preceding the symbolic tail
         (whose own prefix was already spread into the positional list)"""
